@@ -387,35 +387,41 @@ pub fn pattern_matches(pattern: &[u8], channel: &[u8]) -> bool {
                     continue;
                 }
                 b'[' => {
-                    // [abc], [^abc], [a-z]: character class (same rules as the KEYS/SCAN matcher)
-                    if let Some(end) = pattern[p_idx..].iter().position(|&c| c == b']') {
-                        let class_end = p_idx + end;
-                        let negate = p_idx + 1 < class_end && pattern[p_idx + 1] == b'^';
-                        let start_idx = if negate { p_idx + 2 } else { p_idx + 1 };
+                    // [abc], [^abc], [a-z]: character class (same rules as the KEYS/SCAN matcher).
+                    // As in Redis, a backslash takes the next character literally, the first
+                    // unescaped ']' closes the class, a class that is never closed runs to the
+                    // end of the pattern, and the ends of a reversed range are swapped.
+                    let negate = p_idx + 1 < pattern.len() && pattern[p_idx + 1] == b'^';
+                    let mut i = if negate { p_idx + 2 } else { p_idx + 1 };
 
-                        let mut matched = false;
-                        let mut i = start_idx;
-                        while i < class_end {
-                            if i + 2 < class_end && pattern[i + 1] == b'-' {
-                                if channel[c_idx] >= pattern[i] && channel[c_idx] <= pattern[i + 2] {
-                                    matched = true;
-                                    break;
-                                }
-                                i += 3;
-                            } else {
-                                if channel[c_idx] == pattern[i] {
-                                    matched = true;
-                                    break;
-                                }
-                                i += 1;
+                    let mut matched = false;
+                    while i < pattern.len() && pattern[i] != b']' {
+                        if pattern[i] == b'\\' && i + 1 < pattern.len() {
+                            i += 1;
+                            if channel[c_idx] == pattern[i] {
+                                matched = true;
                             }
+                        } else if i + 2 < pattern.len() && pattern[i + 1] == b'-' {
+                            let (low, high) = if pattern[i] <= pattern[i + 2] {
+                                (pattern[i], pattern[i + 2])
+                            } else {
+                                (pattern[i + 2], pattern[i])
+                            };
+                            if channel[c_idx] >= low && channel[c_idx] <= high {
+                                matched = true;
+                            }
+                            i += 2;
+                        } else if channel[c_idx] == pattern[i] {
+                            matched = true;
                         }
+                        i += 1;
+                    }
 
-                        if matched != negate {
-                            p_idx = class_end + 1;
-                            c_idx += 1;
-                            continue;
-                        }
+                    if matched != negate {
+                        // step over the closing ']' if there is one
+                        p_idx = if i < pattern.len() { i + 1 } else { i };
+                        c_idx += 1;
+                        continue;
                     }
                 }
                 b'\\' if p_idx + 1 < pattern.len() => {
